@@ -99,6 +99,24 @@ class C18(AstKindProp):
             if kind == "function":
                 opts.update({"inline_types": r.random() < 0.5, "indent_level": r.choice([0, 1, 2])})
             self.cases.append({"width": w, "kind": kind, "ir": irutil.ir_to_json(irj), "opts": opts})
+        # deterministic boundary sweep: slide the break point of an entry line across its default sentence
+        sweep_widths = [None, 60, 120] if run.tier == "quick" else widths
+        for w in sweep_widths:
+            weff = w or 100
+            for kind in ("class", "rest", "function"):
+                for off in range(0, 26):
+                    r = run.sub_rng("sweep", w, kind, off)
+                    names = r.sample(G.NAMES, 2)
+                    params = []
+                    for nm in names:
+                        typ = r.choice(["int", "str", "float", "bool"])
+                        dv = {"int": 5, "str": "mnist", "float": 0.5, "bool": True}[typ]
+                        params.append((nm, {"typ": typ, "doc": exact_prose(r, max(3, weff - len(nm) - 4 - off)), "default": dv}))
+                    irj = {"doc": "Summary line.", "params": params, "returns": None}
+                    opts = {"emit_default_doc": True}
+                    if kind == "function":
+                        opts.update({"inline_types": True, "indent_level": r.choice([0, 1, 2])})
+                    self.cases.append({"width": w, "kind": kind, "ir": irutil.ir_to_json(irj), "opts": opts, "sweep": off})
         # one sub-process per width
         by_w = {}
         for idx, c in enumerate(self.cases):
@@ -130,9 +148,10 @@ class C18(AstKindProp):
             for i, o in zip(idxs, outs[1:]):
                 self.cases[i]["_res"] = json.loads(o)
         self._fill_done = False
+        self.total_cases = len(self.cases)
 
     def gen(self, r, i, run):
-        c = self.cases[i]
+        c = self.cases[i % len(self.cases)]
         run.dist["width"][str(c["width"])] += 1
         run.dist["kind"][c["kind"]] += 1
         return c
@@ -182,7 +201,7 @@ class C18(AstKindProp):
             return fails
         a = self.py_ir(res["unwrapped_ir"])
         b = self.py_ir(res["wrapped_ir"])
-        d = diff_ir(a, b, ws=True)
+        d = diff_ir(a, b, ws=True, exact_prose=True)
         if d:
             fails.append({"what": "wrapped and unwrapped artefacts parse to different interfaces", "width": c["width"], "kind": c["kind"], "diffs": d, "text": res["wrapped_text"][:1500]})
         return fails
